@@ -352,6 +352,8 @@ pub struct NodeSys {
     pub byz: Option<usize>,
     /// Votes other correct validators have cast in this world (a fixed, legitimate persona).
     pub persona: Vec<VoteSpec>,
+    /// Actions executed before the exploration starts (non-initial seed state).
+    pub prefix: Vec<u16>,
 }
 
 pub struct NodeWorld {
@@ -395,6 +397,7 @@ impl NodeSys {
             honest_guard: false,
             byz: None,
             persona: Vec::new(),
+            prefix: Vec::new(),
         }
     }
 
@@ -563,10 +566,8 @@ impl NodeSys {
     }
 }
 
-impl Sys for NodeSys {
-    type World = NodeWorld;
-
-    fn init(&self) -> NodeWorld {
+impl NodeSys {
+    pub fn init_bare(&self) -> NodeWorld {
         NodeWorld {
             core: Core::new(&self.epoch, self.own),
             mon: Mon::default(),
@@ -580,6 +581,19 @@ impl Sys for NodeSys {
             forged: vec![false; self.alpha.forge.len()],
             out_of_scope: false,
         }
+    }
+
+}
+
+impl Sys for NodeSys {
+    type World = NodeWorld;
+
+    fn init(&self) -> NodeWorld {
+        let mut w = self.init_bare();
+        for a in &self.prefix {
+            let _ = self.step(&mut w, *a, false);
+        }
+        w
     }
 
     fn num_actions(&self) -> usize {
